@@ -1,12 +1,16 @@
 /- line-protocol driver for C13: `drv_c13 <sub-command>` reads operations on stdin, prints one canonical line per operation.
    Core Lean only (nothing imported here may import Mathlib, or the executable will not link). -/
 import ChibiVerif.Driver.LexTotalCmd
+import ChibiVerif.Driver.C13SitesCmd
 
 def main (args : List String) : IO UInt32 := do
   match args with
   | ["lextotal"] =>
     ChibiVerif.Driver.LexTotalCmd.run (← IO.getStdin) (← IO.getStdout)
     return 0
+  | ["literal"] =>
+    ChibiVerif.Driver.C13SitesCmd.run (← IO.getStdin) (← IO.getStdout)
+    return 0
   | _ =>
-    IO.eprintln s!"drv_c13: unknown sub-command {args} (known: lextotal)"
+    IO.eprintln s!"drv_c13: unknown sub-command {args} (known: lextotal, literal)"
     return 2
